@@ -155,6 +155,7 @@ def run(ctx):
     c03.r7_table_scans(ctx, prog, rule_id='C14.R5')
     c04.r2_oldpin(ctx, prog, rule_id='C14.R6')
     c11.r6_store_key(ctx, prog, rule_id='C14.R7')
+    c11.r5_predicates(ctx, prog, rule_id='C14.R8')
 
 
 MUTANTS = [
